@@ -36,13 +36,13 @@ func (p *Program) guardsAtDepth(b *ssa.BasicBlock, depth int) []Guard {
 	// the incoming edges that can produce it: what holds on all of them holds here as well
 	seen := map[guardKey]bool{}
 	for _, g := range out {
-		seen[guardKey{g.If, g.Pol}] = true
+		seen[guardKey{g.If, g.Pol, g.Cond}] = true
 	}
-	n := len(out)
-	for i := 0; i < n; i++ {
+	// threaded guards are threaded in turn (a && b && c; a spliced predicate inside another)
+	for i := 0; i < len(out) && i < 96; i++ {
 		for _, g := range p.threadGuard(out[i], depth) {
-			if !seen[guardKey{g.If, g.Pol}] {
-				seen[guardKey{g.If, g.Pol}] = true
+			if !seen[guardKey{g.If, g.Pol, g.Cond}] {
+				seen[guardKey{g.If, g.Pol, g.Cond}] = true
 				out = append(out, g)
 			}
 		}
@@ -51,8 +51,9 @@ func (p *Program) guardsAtDepth(b *ssa.BasicBlock, depth int) []Guard {
 }
 
 type guardKey struct {
-	If  *ssa.If
-	Pol bool
+	If   *ssa.If
+	Pol  bool
+	Cond ssa.Value
 }
 
 // threadGuard: for a guard whose condition tests a Phi against a constant (or
@@ -63,7 +64,37 @@ func (p *Program) threadGuard(g Guard, depth int) []Guard {
 	if merged == nil {
 		return nil
 	}
-	return p.threadMerged(merged, can, nilTest, depth)
+	out := p.threadMerged(merged, can, nilTest, depth)
+	// a boolean merge (`a && b`, a spliced predicate) that is known true/false and has a single
+	// incoming edge that can produce that: the value arriving on that edge is the condition
+	if phi, ok := merged.(*ssa.Phi); ok && nilTest == 0 {
+		if bt, isB := phi.Type().Underlying().(*types.Basic); isB && bt.Kind() == types.Bool {
+			pol := g.Pol
+			v := g.Cond
+			for {
+				if u, ok := v.(*ssa.UnOp); ok && u.Op == token.NOT {
+					v, pol = u.X, !pol
+					continue
+				}
+				break
+			}
+			if v == ssa.Value(phi) {
+				idx, n := -1, 0
+				for i := range phi.Edges {
+					if p.edgeCan(phi, i, can, 0) {
+						idx = i
+						n++
+					}
+				}
+				if n == 1 {
+					if _, isConst := phi.Edges[idx].(*ssa.Const); !isConst {
+						out = append(out, Guard{If: g.If, Cond: phi.Edges[idx], Pol: pol})
+					}
+				}
+			}
+		}
+	}
+	return out
 }
 
 // mergeTest: the merged value (Phi or cell load) a guard tests against a
@@ -252,7 +283,7 @@ func (p *Program) threadMerged(merged ssa.Value, can func(ssa.Value) bool, nilTe
 	meet := func(gs []Guard) {
 		m := map[guardKey]Guard{}
 		for _, x := range gs {
-			m[guardKey{x.If, x.Pol}] = x
+			m[guardKey{x.If, x.Pol, x.Cond}] = x
 		}
 		if common == nil {
 			common = m
